@@ -123,11 +123,13 @@ def short(x, n=300):
 
 
 @contextlib.contextmanager
-def time_limit(seconds, label, **sig):
-    """Deterministic-input hang detector for code that must terminate on tiny
-    inputs: if the block runs longer than `seconds` (orders of magnitude above
-    its normal cost) a Violation with symptom "hang" is raised.  Main thread
-    only (forked pool workers run checks in their main thread)."""
+def time_limit(seconds, label, wall=False, **sig):
+    """Hang detector for code that must terminate on tiny inputs.  By default
+    the limit is on CPU time consumed by this process (ITIMER_PROF), so a busy
+    machine cannot turn slowness into a false alarm; an infinite loop burns CPU
+    and is caught.  ``wall=True`` (blocking hangs, e.g. a scheduler waiting on a
+    queue) uses wall-clock time and must be given a very generous bound.
+    Main thread only (forked pool workers run checks in their main thread)."""
     import signal
 
     class _Hang(BaseException):
@@ -136,15 +138,17 @@ def time_limit(seconds, label, **sig):
     def handler(signum, frame):
         raise _Hang()
 
-    old = signal.signal(signal.SIGALRM, handler)
-    signal.setitimer(signal.ITIMER_REAL, seconds)
+    which, signo = (signal.ITIMER_REAL, signal.SIGALRM) if wall else (signal.ITIMER_PROF, signal.SIGPROF)
+    old = signal.signal(signo, handler)
+    signal.setitimer(which, seconds)
     try:
         yield
     except _Hang:
-        raise Violation(f"{label}: did not terminate within {seconds}s", symptom="hang", **sig) from None
+        kind = "wall-clock" if wall else "CPU"
+        raise Violation(f"{label}: did not terminate within {seconds}s of {kind} time", symptom="hang", **sig) from None
     finally:
-        signal.setitimer(signal.ITIMER_REAL, 0)
-        signal.signal(signal.SIGALRM, old)
+        signal.setitimer(which, 0)
+        signal.signal(signo, old)
 
 
 # --------------------------------------------------------------------------
